@@ -233,6 +233,10 @@ def main():
         return rep.finish()
     if args.replay:
         w = json.load(open(args.replay))
+        if w.get("op") == "mutate":
+            import ctree
+            rp.close()
+            return common.replay_generic(args, ctree.judge)
         rr = replay_case(rp, w)
         print("replay %s -> %s" % (w, rr))
         if rr.get("violates"):
@@ -296,6 +300,12 @@ def main():
             rep.obligation(oid, "inconclusive", witness=w)
             rep.inconclusive.append("%s: model witness %s does not reproduce through the DOM: %s" % (oid, w, str(rr)[:200]))
     rep.samples += [{"obligation": r["job"], "paths": r["paths"]} for r in results[:6]]
+    # which anchor the tree mutators pick: one child mutator on an element of a bounded tree, keys along the pre-order walk
+    try:
+        import ctree
+        ctree.obligations(rep, rp, "C14", args.tier, args.jobs)
+    except Exception as e:  # noqa
+        rep.inconclusive.append("tree step: %s: %s" % (type(e).__name__, e))
     rp.close()
     return rep.finish()
 
